@@ -435,7 +435,8 @@ template<typename T, typename C, typename A>
 template<typename S>
 std::pair<req_compactor<T, C, A>, size_t> req_compactor<T, C, A>::deserialize(const void* bytes, size_t size,
     const S& serde, const C& comparator, const A& allocator, bool sorted, bool hra) {
-  ensure_minimum_memory(size, 8);
+  // state, section_size_raw, lg_weight, num_sections, padding, num_items
+  ensure_minimum_memory(size, sizeof(uint64_t) + sizeof(float) + 2 * sizeof(uint8_t) + sizeof(uint16_t) + sizeof(uint32_t));
   const char* ptr = static_cast<const char*>(bytes);
   const char* end_ptr = static_cast<const char*>(bytes) + size;
 
